@@ -423,6 +423,22 @@ pub fn run(tier: Tier) -> i32 {
             s.push_str(&(0..m).map(|i| format!("f{}:\n", i)).collect::<String>());
             s
         });
+        // the product of the guards: a chain of definitions (up to the symbol-depth guard), each
+        // the previous one behind a run of unary operators and in front of a run of binary ones
+        // (up to the per-line guards): every factor is admitted alone
+        if n == 10 {
+            for (levels, ops, unary) in [(8usize, 40usize, 0usize), (63, 30, 0), (63, 40, 0), (63, 200, 0), (63, 499, 0), (64, 499, 0), (63, 499, 100), (63, 400, 190), (32, 499, 190), (16, 499, 190), (63, 0, 190), (200, 3, 0)] {
+                probe(&mut cases, &mut meta, &format!("equ-chain-of-operator-runs-{}x{}x{}", levels, ops, unary), n, {
+                    let mut s = String::from(".equ pc0_k = 1\n");
+                    for i in 1..=levels {
+                        let u: String = (0..unary).map(|k| if k % 2 == 0 { '-' } else { '~' }).collect();
+                        s.push_str(&format!(".equ pc{}_k = {}pc{}_k{}\n", i, u, i - 1, "+0".repeat(ops)));
+                    }
+                    s.push_str(&format!(".dw pc{}_k & 0xffff\n", levels));
+                    s
+                });
+            }
+        }
         // definitions that are cyclic, or double, through each built-in function
         if n == 10 || n == 1000 {
             for f in ["low", "high", "byte2", "byte3", "byte4", "lwrd", "hwrd", "page", "exp2", "log2"] {
